@@ -980,6 +980,19 @@ class OrderKind(AbsInt):
         tag = self.loop_order(loop.iter, fr, loop)
         if tag is TOP:
             return loop, TOP, branch
+
+        def simplify(t):
+            # not (a not in b) -> a in b ; not (a in b) -> a not in b ; not not t -> t
+            while isinstance(t, ast.UnaryOp) and isinstance(t.op, ast.Not):
+                inner = t.operand
+                if isinstance(inner, ast.UnaryOp) and isinstance(inner.op, ast.Not):
+                    t = inner.operand
+                elif isinstance(inner, ast.Compare) and len(inner.ops) == 1 and isinstance(inner.ops[0], (ast.In, ast.NotIn)):
+                    t = ast.Compare(left=inner.left, ops=[ast.In() if isinstance(inner.ops[0], ast.NotIn) else ast.NotIn()], comparators=inner.comparators)
+                else:
+                    break
+            return t
+        chain = [simplify(t) for t in chain]
         for t in chain:
             k = self._membership(t, fr, loop.target)
             if k == 'IDENT' and tag == ('cols',):
